@@ -62,6 +62,8 @@ func ChildMain(jobFile, outFile string) {
 			r = RestartLoop(j.Seed, j.Prog, j.Prog.Cycles)
 		case "failsub":
 			r = FailSubLoop(j.Seed, j.Prog, j.Prog.Cycles)
+		case "contend":
+			r = ContendLoop(j.Seed, j.Prog, j.Prog.Cycles)
 		case "window":
 			r = Window(j.Seed, j.Prog, j.Win[0], j.Win[1], j.Win[2], j.Win[3])
 		default:
@@ -74,7 +76,7 @@ func ChildMain(jobFile, outFile string) {
 			}
 			f.Close()
 		}
-		if j.Mode != "restartloop" && j.Mode != "failsub" && len(r.Events) > 0 && len(r.Events) < 4000 {
+		if j.Mode != "restartloop" && j.Mode != "failsub" && j.Mode != "contend" && len(r.Events) > 0 && len(r.Events) < 4000 {
 			w := j.Prog.Workers
 			if w <= 0 {
 				w = 2
@@ -436,6 +438,9 @@ func Run(c *core.Ctx) {
 	}
 	for i := 0; i < c.Pick(4, 16); i++ {
 		add(Job{Mode: "failsub", Seed: c.Seed*1000 + 950 + int64(i), Prog: Program{Workers: []int{2, 4, 1, 3}[i%4], Cycles: c.Pick(12, 40)}, Src: "failing-subscribe"})
+	}
+	for i := 0; i < c.Pick(6, 24); i++ {
+		add(Job{Mode: "contend", Seed: c.Seed*1000 + 970 + int64(i), Prog: Program{Workers: []int{2, 4, 3, 8}[i%4], Cycles: c.Pick(4000, 20000)}, Src: "contended-groups"})
 	}
 	// (hot group) one group is fed faster than a worker drains it while other groups keep the remaining
 	// workers busy: long uninterrupted runs of one work item (hundreds of callbacks) next to waiting work
